@@ -316,6 +316,86 @@ theorem switches_touch_no_record (s : State) :
     (enableTypeChecking s).nodes = s.nodes ∧ (disableTypeChecking s).nodes = s.nodes :=
   ⟨rfl, rfl, rfl, rfl, rfl, rfl, rfl, rfl⟩
 
+/-! ## counters outside the claim: sequence number, period switches, the `unsigned char` stage
+
+These say what the code does for the detector's counters (they are part of what a report entry shows and of
+which records a stage release names), including the cases the property's claim excludes. -/
+
+/-- `getCurrentAllocationNumber()` advances by exactly one for every allocation or reallocation that returned
+    memory, and never otherwise (failed allocations, releases, reports, clears do not consume numbers). -/
+theorem allocation_number_step (s : State) (op : Op) :
+    getCurrentAllocationNumber (step s op).1 = getCurrentAllocationNumber s + successes (step s op).2 :=
+  seq_step s op
+
+theorem allocation_number_run : ∀ (ops : List Op) (s : State),
+    getCurrentAllocationNumber (run s ops).1 = getCurrentAllocationNumber s + successes (run s ops).2
+  | [], s => by simp [run, successes]
+  | op :: ops, s => by
+    have h1 := seq_step s op
+    have h2 := allocation_number_run ops (step s op).1
+    simp only [run, prependEvs, successes_append, getCurrentAllocationNumber] at *
+    omega
+
+/-- from a new detector: the number the next allocation gets is 1 + the number of successful (re)allocations so far -/
+theorem allocation_number_from_init (hp : Nat) (ops : List Op) :
+    getCurrentAllocationNumber (run (State.init hp) ops).1 = 1 + successes (run (State.init hp) ops).2 := by
+  rw [allocation_number_run]; rfl
+
+/-- Allocation numbers identify records: in every reachable state they are pairwise distinct and below the
+    next number (a failing realloc keeps the old number, a successful one takes a new one). -/
+theorem numbers_identify_records : ∀ (ops : List Op) (s : State), s.Inv → FreshAll s ops → NumInv s →
+    NumInv (run s ops).1
+  | [], _, _, _, h => h
+  | op :: ops, s, inv, hf, h =>
+    numbers_identify_records ops (step s op).1 (step_inv inv op hf.1) hf.2 (numInv_step inv op hf.1 h)
+
+theorem numbers_init (hp : Nat) : NumInv (State.init hp) := by
+  simp [NumInv, State.nodes, State.init, Table.flat, Table.empty]
+
+/-- `enable()` / `disable()` / `startChecking()` / `stopChecking()` do not nest: the period after any operation is
+    the one the operation switches to, or unchanged — there is no counter, the last switch wins. -/
+theorem period_switches_do_not_nest (s : State) (op : Op) :
+    (step s op).1.period = (periodSwitch op).getD s.period := period_step s op
+
+/-- in particular two `disable()` are undone by one `enable()`, and `startChecking()` overrides a `disable()` -/
+theorem enable_after_two_disables (s : State) :
+    (enable (disable (disable s))).period = .enabled ∧ (startChecking (disable s)).period = .checking ∧
+    (stopChecking (startChecking (disable s))).period = .enabled := ⟨rfl, rfl, rfl⟩
+
+/-- The allocation stage is an `unsigned char`: only `increase/decreaseAllocationStage` change it, by ±1 modulo 256. -/
+theorem stage_is_a_byte (s : State) (op : Op) :
+    (step s op).1.stage = match op with
+      | .incStage => s.stage + 1
+      | .decStage => s.stage - 1
+      | _ => s.stage := stage_step s op
+
+theorem stage_wraps (s : State) :
+    (s.stage = 255#8 → (increaseStage s).stage = 0#8) ∧ (s.stage = 0#8 → (decreaseStage s).stage = 255#8) ∧
+    (decreaseStage (increaseStage s)).stage = s.stage ∧ (increaseStage (decreaseStage s)).stage = s.stage := by
+  refine ⟨?_, ?_, ?_, ?_⟩
+  · intro h; simp [increaseStage, h]
+  · intro h; simp [decreaseStage, h]
+  · simp only [increaseStage, decreaseStage]; exact BitVec.add_sub_cancel _ _
+  · simp only [increaseStage, decreaseStage]; exact BitVec.sub_add_cancel _ _
+
+/-- After 256 nested `increaseAllocationStage()` the stage is the one it started from, so a stage release then
+    names (and frees) the blocks of the outer stage: the exclusion "> 255 nested stages" of the claim is needed. -/
+theorem stage_wraps_after_256 (s : State) (inv : s.Inv) :
+    (increaseStageTimes 256 s).stage = s.stage ∧
+    (deallocStage (increaseStageTimes 256 s)).1.nodes = s.nodes.filter (fun n => n.stage != s.stage) := by
+  have hst : (increaseStageTimes 256 s).stage = s.stage := by
+    rw [increaseStageTimes_stage]; simp
+  refine ⟨hst, ?_⟩
+  have inv' : (increaseStageTimes 256 s).Inv := by
+    have : (increaseStageTimes 256 s).table = s.table := by
+      generalize 256 = k
+      induction k with
+      | zero => rfl
+      | succ k ih => simpa [increaseStageTimes, increaseStage] using ih
+    unfold State.Inv; rw [this]; exact inv
+  have := (stage_release_affects_exactly _ inv').1
+  rw [this, hst, increaseStageTimes_nodes]
+
 /-! ## non-vacuity: a concrete history with three blocks in one bucket, a release from the middle of the
 chain, a stage release and a report -/
 
